@@ -72,7 +72,7 @@ func AnalyzeMetrics15sShortcut(script *logql_parser.LogQLScript) bool {
 	if err != nil {
 		return false
 	}
-	if duration.Seconds() < 15 {
+	if duration.Seconds() < 15 || duration%(15*time.Second) != 0 {
 		return false
 	}
 	if lraOrUnwrap.StrSel.Pipelines != nil &&
